@@ -58,8 +58,10 @@ for spans, net0, eq0 in configs:
         bauds = rnd.sample([28e9, 32e9, 42e9, 56e9, 64e9], rnd.randint(2, 3))
         modes = []
         for b in bauds:
-            off = rnd.choice([0, 0, 1.0])
+            off_br = rnd.choice([0, 0, 1.0])
             for j in range(rnd.randint(1, 3)):
+                # most libraries give one power offset per baud rate; every third set gives each mode its own
+                off = rnd.choice([0, 1.0, -2.0, 3.0]) if k % 3 == 2 else off_br
                 pen = [{'chromatic_dispersion': 4e3, 'penalty_value': 0}, {'chromatic_dispersion': 60e3, 'penalty_value': rnd.choice([0.5, 3.0])}] \
                     if rnd.random() < 0.3 else None
                 modes.append(mode(f'm{len(modes)}', b, rnd.choice([100e9, 200e9, 300e9, 400e9]) + j * 1e9, rnd.choice([8, 14, 19, 23, 27, 35]),
@@ -107,6 +109,32 @@ for spans, net0, eq0 in configs:
             if got_reason is not None or r_auto.tsp_mode not in ties:
                 wit.append({'key': key, 'problems': [f'chosen {r_auto.tsp_mode} ({got_reason}); feasible by fixed-mode planning: '
                                                      f'{[(m["format"], m["baud_rate"] / 1e9, m["bit_rate"] / 1e9) for m in feasible]}; expected one of {ties}']})
+# two modes of one baud rate with different power offsets: each is judged on the propagation of its own offset
+for spans, net0, eq0 in configs:
+    probe = {}
+    for off in (0, 3.0):
+        _, probe[off] = plan(net0, library(eq0, [mode('p', 32e9, 100e9, 5, 50e9, off)]), service('r', 'A', 'C', trx='synthetic', mode='p', spacing=50e9))
+    margin = eq0['SI']['default'].sys_margins
+    if None in probe.values() or abs(probe[0] - probe[3.0]) < 0.2:
+        continue
+    thr = round((probe[0] + probe[3.0]) / 2 - margin, 2)
+    for offs in ((0, 3.0), (3.0, 0)):
+        # 'big' cannot pass anywhere; 'small' passes at one of the two offsets only
+        modes = [mode('big', 32e9, 200e9, 45, 50e9, offs[0]), mode('small', 32e9, 100e9, thr, 50e9, offs[1])]
+        eq = library(eq0, modes)
+        cases += 1
+        key = f'{spans}:one baud rate, offsets big {offs[0]} dB / small {offs[1]} dB'
+        verdicts = {}
+        for m in modes:
+            r_fix, _ = plan(net0, eq, service('r', 'A', 'C', trx='synthetic', mode=m['format'], spacing=50e9))
+            verdicts[m['format']] = not hasattr(r_fix, 'blocking_reason')
+        r_auto, metric = plan(net0, eq, service('r', 'A', 'C', trx='synthetic', mode=None, spacing=50e9))
+        nontriv += 1
+        got = None if getattr(r_auto, 'blocking_reason', None) is not None else r_auto.tsp_mode
+        want = 'small' if verdicts['small'] else None
+        if got != want:
+            wit.append({'key': key, 'problems': [f'fixed-mode verdicts {verdicts} (metric {probe} dB by offset, threshold {thr + margin}); without a mode the request '
+                                                 f'ends with mode {r_auto.tsp_mode}, {getattr(r_auto, "blocking_reason", None)}, metric {metric}']})
 # a bidirectional request without a mode on a line whose two directions differ: feasibility of a mode includes the reverse path
 # (known finding F52: the mode is selected on the forward direction only)
 from bounded.common import trx as _trx, roadm as _roadm, fiber as _fiber
